@@ -39,7 +39,8 @@ VARIABLES defs,    \* [c, iv: values; fv, yv: equation variants; ver: element ->
 
 Elems == {"c", "f", "s", "y", "w"}
 Deps(e) == CASE e = "c" -> {"c"} [] e = "f" -> {"c", "f"} [] e = "s" -> {"c", "f", "s"} [] e = "y" -> {"c", "f", "s", "y", "w"} [] e = "w" -> {"w"}
-Cur(e) == [d \in Deps(e) |-> defs.ver[d]]
+CurV(ver, e) == [d \in Deps(e) |-> ver[d]]
+Cur(e) == CurV(defs.ver, e)
 Fresh(cell) == cell.seen = Cur(cell.e)
 NoStale == \A cell \in memo : Fresh(cell)
 \* cells an evaluation of e at t creates (the stock recursion reaches back to the start)
@@ -53,12 +54,14 @@ Has(e, t) == \E cell \in memo : cell.e = e /\ cell.t = t
 \* an evaluation only computes (and records with the current versions) what is not cached yet
 Filled(e, t) == memo \cup {[e |-> p[1], t |-> p[2], seen |-> Cur(p[1])] : p \in {q \in Reach(e, t) : ~Has(q[1], q[2])}}
 
-Log1(rec) == hist' = IF L = 0 THEN hist ELSE Append(hist, rec @@ [defs |-> [c |-> defs'.c, iv |-> defs'.iv, ive |-> defs'.ive, fv |-> defs'.fv, yv |-> defs'.yv, w |-> defs'.w, sv |-> defs'.sv]])
+Log1(rec) == hist' = IF L = 0 THEN hist ELSE Append(hist, rec @@ [defs |-> [c |-> defs'.c, cd |-> defs'.cd, ovr |-> defs'.ovr, iv |-> defs'.iv, ive |-> defs'.ive, fv |-> defs'.fv, yv |-> defs'.yv, w |-> defs'.w, sv |-> defs'.sv]])
 Bump(e) == [defs.ver EXCEPT ![e] = @ + 1]
 Cleared == IF "NoReset" \in Dev THEN memo ELSE {}
 
-SetConst(v) == /\ "SetConst" \in Ops /\ v # defs.c
-               /\ defs' = [defs EXCEPT !.c = v, !.ver = Bump("c")] /\ memo' = {}
+\* The constant c has two layers: its definition in the model (cd, what a copy of the model starts from) and the value a scenario
+\* overrides it with (ovr, 0 = none).  c is what is in force on the model object: the layer that was installed last.
+SetConst(v) == /\ "SetConst" \in Ops /\ v # defs.cd
+               /\ defs' = [defs EXCEPT !.c = v, !.cd = v, !.ver = Bump("c")] /\ memo' = {}
                /\ Log1([op |-> "SetConst", v |-> v])
 \* the initial value of the stock is a number (iv) or an element of the model (ive = 1: the constant c itself)
 SetInit(v) == /\ "SetInit" \in Ops /\ (v # defs.iv \/ defs.ive = 1)
@@ -94,6 +97,24 @@ Plot(e) == /\ "Plot" \in Ops /\ e # "w"
 ResetCache == /\ "ResetCache" \in Ops /\ memo # {}
               /\ memo' = {} /\ UNCHANGED defs
               /\ Log1([op |-> "ResetCache"])
+\* The scenario's override of c is set to v, the scenario's cache is reset (how = "scenario": bptk.reset_scenario_cache;
+\* "model": Model.reset_cache on the scenario's model; "simulation": the override is installed with SdSimulation.change_equation,
+\* Model.reset_cache, and the simulation is started directly) and the scenario is run: the override is in force everywhere.
+AllRun(ver) == {[e |-> p[1], t |-> p[2], seen |-> CurV(ver, p[1])] : p \in UNION {Reach(e, t) : e \in {"c", "f", "s", "y"}, t \in Horizon}}
+ScnRun(v, how) == /\ "ScnRun" \in Ops
+                  /\ defs' = [defs EXCEPT !.ovr = v, !.c = v, !.ver = Bump("c")]
+                  /\ memo' = AllRun(Bump("c"))
+                  /\ Log1([op |-> "ScnRun", v |-> v, how |-> how])
+\* The scenario is run again, nothing reset: the run installs the override again.  If another definition of c had been installed
+\* in between (SetConst), what was memoised with that definition is not valid any more; otherwise the memo stays.
+\* Deviation D08c: the override is installed without a look at the memo.
+ScnRerun == /\ "ScnRerun" \in Ops /\ defs.ovr # 0
+            /\ LET ver2 == IF defs.c = defs.ovr THEN defs.ver ELSE Bump("c") IN
+               /\ defs' = [defs EXCEPT !.c = defs.ovr, !.ver = ver2]
+               /\ memo' = IF defs.c = defs.ovr \/ "D08c_override_installed_over_memo" \in Dev
+                           THEN memo \cup {cell \in AllRun(ver2) : ~Has(cell.e, cell.t)}
+                           ELSE AllRun(ver2)
+            /\ Log1([op |-> "ScnRerun"])
 \* bptk.run_scenarios several times with different equation lists: the scenario's memo persists between the runs, so
 \* a later run reports what the first one computed - also for a scenario whose constant is a stochastic definition
 RunTwice == /\ "RunTwice" \in Ops
@@ -101,7 +122,7 @@ RunTwice == /\ "RunTwice" \in Ops
             /\ Log1([op |-> "RunTwice"])
 
 Idle2 == slot = 0 /\ pc = <<>> /\ mine = <<>> /\ got = <<>> /\ ndraw = 0 /\ sched = <<>>
-Init1 == /\ defs = [c |-> 1, iv |-> 0, ive |-> 0, fv |-> 1, yv |-> 1, w |-> 0, sv |-> 1, ver |-> [e \in Elems |-> 0]] /\ memo = {} /\ hist = <<>> /\ Idle2
+Init1 == /\ defs = [c |-> 1, cd |-> 1, ovr |-> 0, iv |-> 0, ive |-> 0, fv |-> 1, yv |-> 1, w |-> 0, sv |-> 1, ver |-> [e \in Elems |-> 0]] /\ memo = {} /\ hist = <<>> /\ Idle2
 Step1 == \/ \E v \in CVals : SetConst(v)
          \/ \E v \in IVals : SetInit(v)
          \/ SetInitElem
@@ -109,7 +130,8 @@ Step1 == \/ \E v \in CVals : SetConst(v)
          \/ \E v \in CVals : SetW(v)
          \/ \E e \in Elems, t \in Times, r \in {"api", "elem"} : Eval(e, t, r)
          \/ \E e \in Elems : Plot(e)
-         \/ ResetCache \/ RunTwice
+         \/ ResetCache \/ RunTwice \/ ScnRerun
+         \/ \E v \in CVals, how \in {"scenario", "model", "simulation"} : ScnRun(v, how)
 Next1 == Step1 /\ UNCHANGED <<slot, pc, mine, got, ndraw, sched>>
 vars1 == <<defs, memo, hist>>
 Spec1 == Init1 /\ [][Next1]_<<defs, memo, hist, slot, pc, mine, got, ndraw, sched>>
